@@ -39,6 +39,9 @@ import GluonModel.Bytecode
 import GluonModel.Compile
 import GluonModel.Generated.InstrTable
 import GluonModel.Proofs.Compile
+import GluonModel.Proofs.CompileHeap
+import GluonModel.Proofs.CompileInner
+import GluonModel.Proofs.CompileLambda
 
 namespace GluonModel.Props.C01b
 open GluonModel.Core GluonModel.Bytecode GluonModel.Compile GluonModel.Proofs.Compile
@@ -430,6 +433,148 @@ example (K : Nat) :
       (innerStart [exX, exY])).2.freeVars = [] := by rfl
   rw [this] at hk
   simp [indexOfSym] at hk
+
+/-! ### F3 (partial): closure creation -/
+
+/-- **Kripke monotonicity.** `NewClosure`/`CloseClosure` only append closures to the heap; every
+    judgment established over a heap `h` — runs of a frame (`Exec`), whole calls (`Returns`),
+    arithmetic failures (`ExecErr`), the closure relation (`CloRel`) and the agreement of a frame
+    with an environment (`Agree`) — holds over every heap that extends `h` by further closures. -/
+theorem heap_extension_monotone {h h' : Heap} (hx : HExt h h') :
+    (∀ {fn upv pc stk pc' stk'}, Exec fn upv h pc stk pc' stk' → Exec fn upv h' pc stk pc' stk') ∧
+    (∀ {g gupv args v}, Returns g gupv h args v → Returns g gupv h' args v) ∧
+    (∀ {fn upv pc stk}, ExecErr fn upv h pc stk .arith → ExecErr fn upv h' pc stk .arith) ∧
+    (∀ {K n v v'}, CloRel K h n v v' → CloRel K h' n v v') ∧
+    (∀ {K Φ fv upv sc ρ stk}, Agree K h Φ fv upv sc ρ stk → Agree K h' Φ fv upv sc ρ stk) :=
+  ⟨fun a => a.hext hx, fun a => a.hext hx, fun a => a.hext hx, fun a => a.hext hx,
+   fun a => a.hext hx⟩
+
+example : HExt { clos := [], data := [] } { clos := [(default, [.int 1])], data := [] } :=
+  ⟨rfl, List.nil_prefix⟩
+
+/-- **F2 code never touches the inner-function table** (so the index a `NewClosure` refers to
+    stays valid while later code of the same function is compiled). -/
+theorem compile_inner_functions_F2 (seIdx : Nat) (Φ : List (Sym × Nat)) (e : Expr)
+    (hF : inF2 Φ e = true) (tail : Bool) (b : Nat) (st : FState) :
+    (compileE seIdx e tail b st).2.inner = st.inner :=
+  inner_E seIdx Φ e hF tail b st
+
+example : (compileE 5 exBranch true 0 FState.empty).2.inner = [] := by rfl
+
+/-- **F3 (partial): compiler correctness with closure creation.** `inF3 seIdx e Φ dom`: `e` is an
+    F2 expression preceded by any chain of
+
+    * lambda bindings `let f ps = body in …` — the one-element `Named::Recursive` the core
+      translator produces for every `let`-bound function and every lambda: at least one
+      parameter, `body` in F2 relative to the function variables in scope **and `f` itself** (so
+      `body` may call `f` recursively, and the earlier functions of the chain, with exact arity,
+      in tail position or not), capturing any variables in scope (`dom`);
+    * plain bindings `let x = e₁ in …` with `e₁` in F2 (so `e₁` may call the functions bound
+      before it).
+
+    The code `compile e` — `NewClosure; Push f; <load every captured variable>; CloseClosure`
+    for each lambda, then the rest — placed at any index of any function whose tables extend the
+    compiler's (`SegAt`, `Tables`, and the inner-function table `hinner`), started on a frame that
+    agrees with the environment over heap `h`, runs in phases (`ExecH`: `Exec` phases and the
+    heap-changing turns of closure creation) to a heap `h'` that extends `h` by exactly the
+    created closures (`HExt`), over which it ends as `Done` says with the value `evalCore`
+    assigns; when `evalCore` gives the arithmetic error the machine fails with it (possibly
+    after creating closures). Each created heap closure is `CloRel`-related to the `evalCore`
+    closure at every fuel `≤ K` (induction on the fuel, for self-recursion), which is what makes
+    the calls in the rest of the chain correct by `compile_correct_F2`.
+
+    Missing for the full F3/F4: groups of several mutually recursive lambdas created by one
+    `Named::Recursive` (the semantic half is `rec_group_correct_F3`), lambdas *inside* function
+    bodies or under `match` (the heap would change during a call: `Returns` keeps one heap),
+    closures as values (returned, passed, stored), partial and excess application. -/
+theorem compile_correct_F3_partial (seIdx : Nat) (Φ : List (Sym × Nat)) (dom : List Sym) (e : Expr)
+    (hF : inF3 seIdx e Φ dom = true)
+    (tail : Bool) (b : Nat) (st : FState) (fn : Fn) (upv : List Val) (fv : List Sym) (h : Heap)
+    (K fuel : Nat) (hK : fuel ≤ K + 1) (ρ : Env) (stk : List Val)
+    (hseg : SegAt fn.instrs b (compileE seIdx e tail b st).1)
+    (htab : Tables (compileE seIdx e tail b st).2 fn fv)
+    (hinner : (compileE seIdx e tail b st).2.inner <+: fn.inner)
+    (hlen : stk.length = st.stackSize) (hag : Agree K h Φ fv upv st.scopes ρ stk)
+    (hdum : lookup ρ dummySym = none) (hdom : ∀ x ∈ dom, (lookup ρ x).isSome = true) :
+    (∀ v, evalCore fuel ρ e = .ok v →
+      ∃ h', HExt h h' ∧
+        DoneH fn upv h tail b stk (b + (compileE seIdx e tail b st).1.length) stk v h') ∧
+    (evalCore fuel ρ e = .error .arith → ErrH fn upv h b stk) :=
+  (wrap_spec3 (body_spec3 seIdx (inF3_sound seIdx e Φ dom hF)) tail b st).2.2.2.2 K fuel hK fn upv fv h
+    ρ stk hseg htab hinner hlen hag hdum hdom
+
+/-- the compile-time side of F3: `stack_size` +1, scopes restored, tables only extended — the
+    inner-function table included -/
+theorem compile_stack_discipline_F3 (seIdx : Nat) (Φ : List (Sym × Nat)) (dom : List Sym) (e : Expr)
+    (hF : inF3 seIdx e Φ dom = true) (tail : Bool) (b : Nat) (st : FState) :
+    (compileE seIdx e tail b st).2.scopes = st.scopes ∧
+    (compileE seIdx e tail b st).2.stackSize = st.stackSize + 1 ∧
+    Ext st (compileE seIdx e tail b st).2 ∧
+    st.inner <+: (compileE seIdx e tail b st).2.inner :=
+  ⟨(wrap_spec3 (body_spec3 seIdx (inF3_sound seIdx e Φ dom hF)) tail b st).1,
+   (wrap_spec3 (body_spec3 seIdx (inF3_sound seIdx e Φ dom hF)) tail b st).2.1,
+   (wrap_spec3 (body_spec3 seIdx (inF3_sound seIdx e Φ dom hF)) tail b st).2.2.1,
+   (wrap_spec3 (body_spec3 seIdx (inF3_sound seIdx e Φ dom hF)) tail b st).2.2.2.1⟩
+
+/-- **F3 modules.** The function `compile_expr` builds for an F3 program whose free variables
+    are globals (`dom`, all bound in `ρ`), entered with no arguments and the globals' values as
+    upvalues: its frame runs, creating its closures, to a heap `h'` over which it ends with the
+    value of the semantics on top at the final `Return` or leaves by a tail call whose callee
+    returns that value; or it fails with the arithmetic error of the semantics. -/
+theorem compile_correct_F3_module (seIdx : Nat) (dom : List Sym) (e : Expr)
+    (hF : inF3 seIdx e [] dom = true)
+    (upv : List Val) (h : Heap) (fuel : Nat) (ρ : Env) (hdum : lookup ρ dummySym = none)
+    (hdom : ∀ x ∈ dom, (lookup ρ x).isSome = true)
+    (hglob : ∀ x v, lookup ρ x = some v →
+      ∀ k, indexOfSym (compileModule seIdx e).1 x = some k → upv[k]? = some v) :
+    let fn := (compileModule seIdx e).2.1
+    (∀ v, evalCore fuel ρ e = .ok v →
+      ∃ h', HExt h h' ∧ DoneH fn upv h true 0 [] (fn.instrs.length - 1) [] v h') ∧
+    (evalCore fuel ρ e = .error .arith → ErrH fn upv h 0 []) := by
+  intro fn
+  have hseg : SegAt fn.instrs 0 (compileE seIdx e true 0 FState.empty).1 := by
+    intro k hk
+    show ((compileE seIdx e true 0 FState.empty).1 ++ [Instr.ret])[0 + k]? = _
+    rw [Nat.zero_add, List.getElem?_append_left hk]
+  have htab : Tables (compileE seIdx e true 0 FState.empty).2 fn (compileModule seIdx e).1 :=
+    ⟨List.prefix_refl _, List.prefix_refl _, List.prefix_refl _⟩
+  have hag : Agree fuel h [] (compileModule seIdx e).1 upv FState.empty.scopes ρ [] := by
+    intro x v hx
+    exact Or.inr ⟨rfl, fun k hk => ⟨v, hglob x v hx k hk, rfl⟩⟩
+  have hlen : fn.instrs.length - 1 = 0 + (compileE seIdx e true 0 FState.empty).1.length := by
+    show ((compileE seIdx e true 0 FState.empty).1 ++ [Instr.ret]).length - 1 = _
+    simp
+  rw [hlen]
+  exact compile_correct_F3_partial seIdx [] dom e hF true 0 FState.empty fn upv
+    (compileModule seIdx e).1 h fuel fuel (Nat.le_succ _) ρ [] hseg htab (List.prefix_refl _) rfl hag
+    hdum hdom
+
+/-! Non-vacuity of F3 -/
+/-- `let f x y = x + y in f 1 2` (above): the whole program is in F3 -/
+example : inF3 5 exCall [] [] = true := by rfl
+def exN : Sym := ⟨"n", 11⟩
+def exAcc : Sym := ⟨"acc", 12⟩
+def exLoop : Sym := ⟨"loop", 13⟩
+def exK : Sym := ⟨"k", 14⟩
+/-- `let k = 10 in let rec loop n acc = if n < 1 then acc + k else loop (n - 1) (acc + n) in loop 3 0`:
+    a self-recursive tail loop that captures `k` -/
+def exLoopProg : Expr :=
+  .letE exK (.const (.int 10))
+    (.letRec [(exLoop, [exN, exAcc],
+        .match_ (.call (.ident ⟨"#Int<", 4⟩) [.ident exN, .const (.int 1)])
+          [(.ctor (some 1) [], .call (.ident ⟨"#Int+", 3⟩) [.ident exAcc, .ident exK]),
+           (.ctor (some 0) [],
+             .call (.ident exLoop)
+               [.call (.ident ⟨"#Int-", 5⟩) [.ident exN, .const (.int 1)],
+                .call (.ident ⟨"#Int+", 3⟩) [.ident exAcc, .ident exN]])])]
+      (.call (.ident exLoop) [.const (.int 3), .const (.int 0)]))
+example : inF3 5 exLoopProg [] [] = true := by rfl
+example : inF1 exLoopProg = false := by rfl
+example : evalCore 50 [] exLoopProg = .ok (.int 16) := by rfl
+example : (runModule 1000 (compileModule 5 exLoopProg).2.1 []).map (·.1) = .ok (.int 16) := by rfl
+example : True ∨ (compileModule 5 exLoopProg).2.1.instrs =
+    [.pushInt 10, .newClosure 0 2, .push 1, .push 1, .push 0, .closeClosure 2, .push 1, .pushInt 3,
+     .pushInt 0, .tailCall 2, .slide 2, .ret] := Or.inl trivial
 
 /-- What is proved of the full statement `compile_correct` (see the header): the highest rung
     reached, F2 on known closures. -/
